@@ -18,7 +18,7 @@ def getLeaves (j : Json) (k : String) : List Leaf :=
 
 def getCx (j : Json) : Cx :=
   { passLeaves := getLeaves j "pass_leaves", noCopyList := getB j "no_copy_list" false, noCopyDict := getB j "no_copy_dict" false, nailed := getB j "nailed" true, ntAsDict := getB j "nt_as_dict" false,
-    fixK1 := getB j "fixK1" false, fixK2 := getB j "fixK2" false, fixK10 := getB j "fixK10" false }
+    fixK1 := getB j "fixK1" false, fixK2 := getB j "fixK2" false, fixK10 := getB j "fixK10" false, fixK3 := getB j "fixK3" false }
 
 def coreWith (O : Oracle) (op : String) (j : Json) : Except String Json := do
   let ty ← toTy (j.getObjValD "ty")
